@@ -7,8 +7,14 @@ use tlsh::length::{DataLengthProcessingMode, DataLengthValidity, FuzzyHashLength
 use tlsh::generate::Generator;
 use tlsh::GeneratorType;
 
+thread_local! { static LEN_ENTRY_POINTS_DISAGREE: std::cell::Cell<bool> = std::cell::Cell::new(false); }
+
 fn enc(n: u32) -> Option<u8> {
-    FuzzyHashLengthEncoding::new(n).map(|x| x.value())
+    let a = FuzzyHashLengthEncoding::new(n).map(|x| x.value());
+    // the conversion trait is the same function
+    let b = FuzzyHashLengthEncoding::try_from(n).ok().map(|x| x.value());
+    if a != b { LEN_ENTRY_POINTS_DISAGREE.with(|c| c.set(true)); }
+    a
 }
 
 fn enc_str(n: u32) -> String {
@@ -16,6 +22,13 @@ fn enc_str(n: u32) -> String {
 }
 
 pub fn stream_len(out: &mut impl Write, seed: u64, budget: usize) {
+    stream_len_inner(out, seed, budget);
+    if LEN_ENTRY_POINTS_DISAGREE.with(|c| c.replace(false)) {
+        writeln!(out, "ORACLE C09 try-from-u32-differs-from-new").unwrap();
+    }
+}
+
+fn stream_len_inner(out: &mut impl Write, seed: u64, budget: usize) {
     let mut rng = Rng::new(seed, 30);
     // boundaries: powers of two and neighbours
     for k in 0..32 {
